@@ -112,13 +112,32 @@ class FStrV:
 
 
 class PyList:
-    __slots__ = ("items",)
+    """list.  `prefix` (None or a z3 Seq(Int) term) stands for an unknown number of leading int
+    elements ("open" list: an arbitrary initial list followed by the concrete `_items`).  Every
+    consumer that reads `.items` of an open list gets Unsupported, so only the operations that
+    handle the prefix explicitly (append, extend, +, ==, copy, same_state) work on open lists."""
+    __slots__ = ("_items", "prefix")
 
-    def __init__(self, items=None):
-        self.items = list(items) if items is not None else []
+    def __init__(self, items=None, prefix=None):
+        self._items = list(items) if items is not None else []
+        self.prefix = prefix
+
+    @property
+    def items(self):
+        if self.prefix is not None:
+            from .explore import Unsupported
+            raise Unsupported("operation on a list of unknown length (open list)")
+        return self._items
+
+    @items.setter
+    def items(self, v):
+        if self.prefix is not None:
+            from .explore import Unsupported
+            raise Unsupported("operation on a list of unknown length (open list)")
+        self._items = v
 
     def __repr__(self):
-        return f"PyList({self.items!r})"
+        return f"PyList({'<open>+' if self.prefix is not None else ''}{self._items!r})"
 
 
 class PyDict:
